@@ -7,5 +7,5 @@ CONSTANTS
 INIT Init11
 NEXT Next11
 INVARIANTS ListedIsAddressable ListShowsExactly ViewsAgreeOnSizeType StaysInRoot
-PROPERTIES ForksTravel ForksStay NewFolderNeverReplaces OpsChangeExactly
+PROPERTIES ForksTravel ForksStay BystandersKeepForks NewFolderNeverReplaces OpsChangeExactly
 CHECK_DEADLOCK FALSE
